@@ -33,6 +33,8 @@ pub unsafe fn build_list<const M: usize, const K: usize>() -> NonNull<ChunkFoote
 }
 
 /// `cur_off`: finger offset of the CURRENT chunk (usize::MAX = symbolic).
+pub static mut CHUNK_ALIGN_OVERRIDE: usize = 16;
+
 pub unsafe fn build_list_at<const M: usize, const K: usize>(cur_off: usize) -> NonNull<ChunkFooter> {
     let mut prev = empty_footer();
     let mut i = 0;
@@ -42,18 +44,23 @@ pub unsafe fn build_list_at<const M: usize, const K: usize>(cur_off: usize) -> N
         let usable = USABLE[i];
         let off: usize = if i + 1 == K && cur_off != usize::MAX { cur_off } else { kani::any() };
         kani::assume(off <= usable && off & (M - 1) == 0);
-        let c = place_chunk::<M>(base, usable, 0, off, 16, prev, true);
-        pool_register(base, usable + FOOTER_SIZE, 16);
+        // chunk alignment: 16, or the override for the over-aligned instance (the block then sits at
+        // the start of its backing object, whose base CBMC aligns to 2^48)
+        let ca = if CHUNK_ALIGN_OVERRIDE > 16 && i + 1 == K { CHUNK_ALIGN_OVERRIDE } else { 16 };
+        let base = if ca > 16 { big_base(i) } else { base };
+        let c = place_chunk::<M>(base, usable, 0, off, ca, prev, true);
+        pool_register(base, usable + FOOTER_SIZE, ca);
         prev = NonNull::new_unchecked(c.footer);
         i += 1;
     }
     prev
 }
 
-pub fn f6_life<const M: usize, const K: usize>() {
+pub fn f6_life<const M: usize, const K: usize, const CA: usize>() {
     unsafe {
         pool_reset(0);
         DISPLACE = 0;
+        CHUNK_ALIGN_OVERRIDE = CA;
         let cur = build_list::<M, K>();
         let limit: Option<usize> = kani::any();
         let mut bump = Bump::<M> {
@@ -86,7 +93,7 @@ pub fn f6_life<const M: usize, const K: usize>() {
                 vassert!(bump.chunk_capacity() == USABLE[K - 1], "NEVER: [C06] full usable capacity not available after reset");
                 // ---- C08
                 vassert!(bump.allocated_bytes_including_metadata() == ledger_live_bytes(), "NEVER: [C08] including_metadata != bytes held after reset");
-                vassert!(bump.allocated_bytes() == ledger_live_bytes() - FOOTER_SIZE, "NEVER: [C08] allocated_bytes != bytes held minus per-chunk overhead after reset");
+                vassert!(bump.allocated_bytes() == ledger_live_bytes() - FOOTER_SIZE, "NEVER: [C07,C08] allocated_bytes != bytes held minus per-chunk overhead after reset (the limit is enforced against this figure)");
             }
             vassert!(NREQ == 0, "NEVER: [C06] reset asked the global allocator for memory");
             vassert!(bump.allocation_limit() == limit, "NEVER: [C06] reset changed the allocation limit");
@@ -150,7 +157,7 @@ macro_rules! f6 {
         #[kani::stub(crate::core_alloc::alloc::alloc, alloc_pool)]
         #[kani::stub(crate::core_alloc::alloc::dealloc, dealloc_pool)]
         pub fn $name() {
-            f6_life::<$m, $k>();
+            f6_life::<$m, $k, 16>();
         }
     };
 }
@@ -166,3 +173,19 @@ f6!(f6_life_m8_k2, 8, 2);
 f6!(f6_life_m8_k3, 8, 3);
 f6!(f6_life_m4_k3, 4, 3);
 f6!(f6_life_m2_k3, 2, 3);
+
+// the current chunk was acquired for an over-aligned request (chunk alignment 128 / 256)
+#[kani::proof]
+#[kani::unwind(5)]
+#[kani::stub(crate::core_alloc::alloc::alloc, alloc_pool)]
+#[kani::stub(crate::core_alloc::alloc::dealloc, dealloc_pool)]
+pub fn f6_life_m1_k1_a128() {
+    f6_life::<1, 1, 128>();
+}
+#[kani::proof]
+#[kani::unwind(5)]
+#[kani::stub(crate::core_alloc::alloc::alloc, alloc_pool)]
+#[kani::stub(crate::core_alloc::alloc::dealloc, dealloc_pool)]
+pub fn f6_life_m8_k2_a256() {
+    f6_life::<8, 2, 256>();
+}
